@@ -784,7 +784,7 @@ def subst_atom(a, mapping):
             base = sa if sa is not None else ('val', base)
         if a[0] == 'idx' and isinstance(base, tuple) and base[0] == 'val' and isinstance(base[1], Tup):
             k = new[1]
-            if isinstance(k, Poly) and k.const_value() is not None:
+            if isinstance(k, Poly) and k.const_value() is not None and -len(base[1]) <= int(k.const_value()) < len(base[1]):
                 return base[1].items[int(k.const_value())]
         if a[0] == 'idx' and isinstance(new[0], Poly) and new[0] != Poly.atom(a[1]) and isinstance(new[1], (Poly, Slice, Tup)):
             return index(new[0], new[1])        # the base changed: let the keys compose again
